@@ -2,7 +2,7 @@
 import looplib as L
 from vlib import Failure, finish, hexs
 
-COQ_FILES = L.LOOP_COQ_FILES
+COQ_FILES = L.LOOP_COQ_FILES + L.REFINE_COQ_FILES
 
 
 def N(name):
@@ -57,6 +57,10 @@ def gen(ctx):
             else:
                 labels.append("t" + str(rng.choice([1, 50, 100, 300])))
         items.append((L.Sched(labels=labels + L.flush(rid), note="random"), names))
+    # sessions inside the fragment of the refinement theorems (c04_exec_events)
+    for _ in range(40 if ctx.tier == "quick" else 800):
+        labels, info, nreq = L.gen_fragment_session(rng, rng.choice([6, 15, 40, 80]))
+        items.append((L.Sched(labels=labels + L.flush(nreq), note="fragment session"), list(info["notified"])))
     return items
 
 
@@ -91,7 +95,8 @@ def run(ctx, only=None):
     if only is not None:
         for r in results:
             print("labels:", " ".join(r["sched"].labels)[:1500], "\nops   :", " ".join(r["ops"])[:1500], "\nimpl  :", r["impl_raw"][:2500], "\nmodel :", " ".join(r["model_segs"])[:2500])
-    dist = {"schedules": len(scheds), "changes_reported": sum(len(n) for _, n in items if n), "events_delivered": total_events,
+    inside, why = L.fragment_membership(ctx, scheds)
+    dist = {"in_refinement_fragment": inside, "outside_fragment_first_label_kind": why, "schedules": len(scheds), "changes_reported": sum(len(n) for _, n in items if n), "events_delivered": total_events,
             "requests": sum(sum(1 for l in s.labels if l[0] in "ic") for s in scheds),
             "partial_deliveries": sum(sum(1 for l in s.labels if l[0] == "D" and l != "D0") for s in scheds)}
     return finish(
